@@ -297,4 +297,4 @@ def replay(ctx, kind, payload):
             if any(v[i][j] and not vd[i][j] for i in range(len(v)) for j in range(len(v[0]))):
                 ctx.violation('occlusion', 'stochastic.shows_more_than_deterministic', 'replay', kind, payload)
     else:
-        analyse(ctx, state, area, payload['fn'], 0, rng)
+        analyse(ctx, state, area, payload['fn'], fns[(payload['fn'], area)], 0, rng)
